@@ -33,6 +33,9 @@ class KeyModel(object):
         self.subs = []        # dicts: kid, fpr, bindings[], revocations
         self.key_revocations = 0
         self.revokers = 0
+        self.revoker_idx = []       # indices of the keys this key named as designated revokers
+        self.revocations_by_revoker = 0
+        self.strangers = set()      # keys that issued a key revocation over this key without being authorised
         self.directs3 = 0
         self.protected = False
 
@@ -265,12 +268,34 @@ def apply(st_, op):
         return
     if name == 'revoker':
         by = op[2] % len(st_.keys)
-        if by == k:
+        if by == k or by in m.strangers:
+            # (whether a revocation made before its issuer was authorised counts afterwards is not decided by the statement)
             raise Skip()
         st_.clock += 1
         with unlocked(key, m):
             key |= key.revoker(st_.keys[by].pubkey, created=utc(BASE + st_.clock))
         m.revokers += 1
+        m.revoker_idx.append(by)
+        return
+    if name == 'revoke_key_by':
+        # the key is revoked by one of the keys it named as designated revoker (RFC 4880 5.2.1, 5.2.3.15): a key revocation like its own
+        cand = [b for b in m.revoker_idx if b != k and st_.models[b].uids]
+        stranger = [b for b in range(len(st_.keys)) if b != k and b not in m.revoker_idx and st_.models[b].uids]
+        if stranger and (op[2] % 4 == 3 or not cand):
+            # a "revocation" by a key that was never authorised revokes nothing
+            st_.clock += 1
+            with unlocked(st_.keys[stranger[0]], st_.models[stranger[0]]):
+                key |= st_.keys[stranger[0]].revoke(key, reason=RevocationReason.Compromised, created=utc(BASE + st_.clock))
+            m.strangers.add(stranger[0])
+            return
+        if not cand:
+            raise Skip()
+        by = cand[op[2] % len(cand)]
+        st_.clock += 1
+        with unlocked(st_.keys[by], st_.models[by]):
+            key |= st_.keys[by].revoke(key, reason=RevocationReason.Compromised, created=utc(BASE + st_.clock))
+        m.key_revocations += 1
+        m.revocations_by_revoker += 1
         return
     if name == 'del_uid':
         cand = [u for u in m.uids if u['kind'] == 'uid']
@@ -396,7 +421,9 @@ def inv_c15(st_):
             out.append(('identity-set-differs', 'key %d: exported %r, object %r, model %r' % (k, exported_uids, [u.userid for u in key.userids], want_uids)))
         # (4) revocations reported for exactly the revoked component
         if len(list(key.revocation_signatures)) != m.key_revocations:
-            out.append(('key-revocations', 'key %d: %d reported, %d made' % (k, len(list(key.revocation_signatures)), m.key_revocations)))
+            by_rev = m.revocations_by_revoker and len(list(key.revocation_signatures)) == m.key_revocations - m.revocations_by_revoker
+            out.append(('key-revocations' + ('/of-the-designated-revoker-not-reported' if by_rev else ''),
+                        'key %d: %d reported, %d made' % (k, len(list(key.revocation_signatures)), m.key_revocations)))
         for sm in m.subs:
             subs = [s for s in key.subkeys.values() if str(s.fingerprint) == sm['fpr']]
             if len(subs) != 1:
@@ -547,6 +574,7 @@ def op_strategy():
         st.tuples(st.just('rebind'), k, i, i),
         st.tuples(st.just('revoke_key'), k),
         st.tuples(st.just('revoker'), k, k),
+        st.tuples(st.just('revoke_key_by'), k, i),
         st.tuples(st.just('del_uid'), k, i),
         st.tuples(st.just('protect'), k, i),
         st.tuples(st.just('unlock_sign'), k),
@@ -559,6 +587,7 @@ def op_strategy():
 
 PREFIXES = [
     [],
+    [['add_uid', 0, 4, 0, 0, 0, 0, 0], ['add_uid', 1, 5, 0, 1, 0, 0, 1], ['revoker', 0, 1]],
     [['add_uid', 0, 4, 0, 0, 0, 0, 0], ['add_uid', 1, 5, 0, 1, 0, 0, 1], ['add_subkey', 0, 0, 0], ['add_subkey', 1, 1, 0]],
     # substring pairs: 'Ann' then the newer 'Annie Hall' (sorts first), 'Bobby' then 'Bob (work) <...>'
     [['add_uid', 0, 0, 0, 0, 0, 0, 0], ['add_uid', 0, 1, 2, 1, 0, 0, 1], ['add_subkey', 0, 2, 0], ['add_uid', 1, 5, 0, 0, 0, 0, 0]],
